@@ -75,11 +75,14 @@ pub fn build_event_sh(conf: &MessageConfig, secs: u32, us: u32, sh0: Option<Stor
     json!({"op": "build", "conf": conf_json(conf), "sh0": sh0j, "ts": {"secs": proj::bytes(&secs.to_be_bytes()), "us": proj::bytes(&us.to_be_bytes())}, "res": res})
 }
 pub fn arg_event(a: &Argument) -> J {
-    let res = match catch_unwind(AssertUnwindSafe(|| {
-        json!({"v": "ok", "len": a.len(), "be": a.as_bytes::<byteorder::BigEndian>().len(), "le": a.as_bytes::<byteorder::LittleEndian>().len(), "valid": a.valid()})
-    })) {
-        Ok(j) => j,
-        Err(_) => json!({"v": "panic"}),
+    // the validity check and the measurements are called separately: for an argument that is not well formed only the outcome of the
+    // validity check is stated (measuring or writing such an argument may do anything)
+    let valid = catch_unwind(AssertUnwindSafe(|| a.valid()));
+    let meas = catch_unwind(AssertUnwindSafe(|| (a.len(), a.as_bytes::<byteorder::BigEndian>().len(), a.as_bytes::<byteorder::LittleEndian>().len())));
+    let (mv, len, be, le) = match meas { Ok((l, b, e)) => ("ok", l, b, e), Err(_) => ("panic", 0, 0, 0) };
+    let res = match valid {
+        Ok(v) => json!({"v": "ok", "valid": v, "m": mv, "len": len, "be": be, "le": le}),
+        Err(_) => json!({"v": "panic", "valid": false, "m": mv, "len": len, "be": be, "le": le}),
     };
     json!({"op": "arg", "a": proj::argument(a), "res": res})
 }
@@ -376,11 +379,14 @@ pub fn replay(mode: &str, cases: &[J], out: &mut Out) {
                     let h = h as usize;
                     b.len() as i64 - (4 + 4 * ((h >> 2 & 1) + (h >> 3 & 1) + (h >> 4 & 1)) + 10 * (h & 1)) as i64
                 }));
-                let ok = r["v"] == "ok" && sans(&r["m"]) == sans(&x["m"]) && sans(&r["m2"]) == sans(&x["m2"])
+                // a configuration that describes no well-formed message: only what the statement names (flags and count, the payload itself)
+                let named = |a: &J, b: &J| a["h"]["ueh"] == b["h"]["ueh"] && a["p"] == b["p"] && a["x"].get(0).map(|x| (&x["verb"], &x["noar"])) == b["x"].get(0).map(|x| (&x["verb"], &x["noar"]));
+                let same = |a: &J, b: &J| if x["wf"] == json!(true) { sans(a) == sans(b) } else { named(a, b) };
+                let ok = r["v"] == "ok" && same(&r["m"], &x["m"]) && same(&r["m2"], &x["m2"])
                     && r["m"]["h"]["plen"].as_i64() == own_plen && r["m2"]["h"]["plen"].as_i64() == own_plen
                     && r["blen"] == json!(r["bytes"].as_array().map(|b| b.len()).unwrap_or(0))
                     && r["bytes2"].as_array().map(|b| b.len()) == r["bytes"].as_array().map(|b| b.len() + 16)
-                    && r["bytes2"].as_array().map(|b| b[..16].to_vec()) == x["storage"].as_array().cloned()
+                    && (x["wf"] == json!(true) || r["bytes2"].as_array().map(|b| b[..16].to_vec()) == x["storage"].as_array().cloned())
                     && (x["wf"] != json!(true) || (r["parse"]["v"] == "msg" && r["parse"]["m"] == r["m2"]));
                 if !ok {
                     out.mismatches.push(json!({"what": "build", "expected_class": "built", "observed_class": r["v"], "case": case, "expected": x, "observed": r}));
@@ -393,7 +399,7 @@ pub fn replay(mode: &str, cases: &[J], out: &mut Out) {
                 let e = arg_event(&a);
                 out.calls += 4;
                 let r = &e["res"];
-                let ok = r["v"] == "ok" && (case["expect"]["wf"] != json!(true) || (r["len"] == r["be"] && r["len"] == r["le"])) && (case["expect"]["invalid"] != json!(true) || r["valid"] == json!(false));
+                let ok = r["v"] == "ok" && (case["expect"]["wf"] != json!(true) || (r["m"] == "ok" && r["len"] == r["be"] && r["len"] == r["le"])) && (case["expect"]["invalid"] != json!(true) || r["valid"] == json!(false));
                 if !ok {
                     out.mismatches.push(json!({"what": "arg", "expected_class": "len=be=le", "observed_class": r["v"], "case": case, "expected": case["expect"], "observed": r}));
                 }
